@@ -32,6 +32,12 @@ func (node *Node) processUnconfirmedTx(ctx context.Context, tx handlers.TxData) 
 		return errors.New("Process unconfirmed tx with height")
 	}
 
+	// Blocks and unconfirmed txs update the same mempool, tx repo and tx states, so they can't be
+	// processed at the same time. Otherwise a block can see a tx that is halfway through here as
+	// already filtered out and never report its confirmation.
+	node.blockLock.Lock()
+	defer node.blockLock.Unlock()
+
 	node.txTracker.Remove(ctx, *hash)
 
 	// The mempool is needed to track which transactions have been sent to listeners and to check
